@@ -53,6 +53,39 @@ class _GetToSubscript(ast.NodeTransformer):
         return node
 
 
+_NONNONE = {}
+
+
+def nonnone_values(program, cname, attr):
+    """Every value stored into self.<attr>[..] by the class is a parameter
+    covered by `assert isinstance(<param>, ...)` in the same method."""
+    key = (id(program), cname, attr)
+    if key in _NONNONE:
+        return _NONNONE[key]
+    ok = True
+    n_st = 0
+    c = program.cls(cname)
+    for f in c.methods.values():
+        asserted = {norm(a.test.args[0]) for a in ast.walk(f.node)
+                    if isinstance(a, ast.Assert) and isinstance(
+                        a.test, ast.Call) and dotted(a.test.func)
+                    == 'isinstance' and len(a.test.args) == 2}
+        for n in ast.walk(f.node):
+            if isinstance(n, ast.Assign) and any(
+                    isinstance(t, ast.Subscript) and dotted(t.value)
+                    == f'self.{attr}' for t in n.targets):
+                n_st += 1
+                if norm(n.value) not in asserted:
+                    ok = False
+            if isinstance(n, ast.Call) and isinstance(
+                    n.func, ast.Attribute) and dotted(n.func.value) \
+                    == f'self.{attr}' and n.func.attr in ('setdefault',
+                                                          'update'):
+                ok = False
+    _NONNONE[key] = ok and n_st > 0
+    return _NONNONE[key]
+
+
 def unget(node_or_text):
     """Normalise table reads through .get to subscripts (text in, text out;
     node in, node out)."""
@@ -242,8 +275,18 @@ class LifeDomain(Domain):
             # of substituted locals is kept separately (flag freshness)
             vers = dict(ev.sym.stamp)
             vers.update(st.versions)
-            st.data['conds'].append((unget(ev.sym.text), ev.sym.node,
-                                     ev.extra, frozenset(vers.items())))
+            text, truth = unget(ev.sym.text), ev.extra
+            # `self._processors.get(T) is None`: the table only ever holds
+            # objects that passed `assert isinstance(.., Processor)`, so a
+            # None answer means "T not in the table" and vice versa
+            pre = 'self._processors['
+            if text.startswith(pre) and text.endswith('] is None') and \
+                    nonnone_values(self.program, 'World', '_processors'):
+                text = f'{text[len(pre):-len("] is None")]} in ' \
+                    'self._processors'
+                truth = (not truth) if truth is not None else None
+            st.data['conds'].append((text, ev.sym.node,
+                                     truth, frozenset(vers.items())))
             st.data['cond_binds'].append(ev.sym.stamp)
         elif k == 'call' and ev.func is None:
             self._call(st, ev)
